@@ -6,7 +6,7 @@ for mp in sorted(glob.glob(os.path.join(os.path.dirname(os.path.dirname(os.path.
     m = json.load(open(mp))
     res = []
     for r in m.get("checks_run", []):
-        res.append("%s: %s" % (r["check"], "caught (%s)" % (r["violation_keys"][0] if r["violation_keys"] else "exit 1") if r["caught"] else "not caught"))
+        res.append("%s%s: %s" % (r["check"], " (thorough tier)" if r.get("tier") == "thorough" else "", "caught (%s)" % (r["violation_keys"][0] if r["violation_keys"] else "exit 1") if r["caught"] else "not caught"))
     rows.append((m["id"], m["breaks_property"], m.get("needs_to_manifest", "").replace("|", "/"), "; ".join(res).replace("|", "/")))
 print("| seeded change | breaks | needs, in order to manifest | checks run against it (quick tier) |")
 print("|---|---|---|---|")
